@@ -109,7 +109,7 @@ CHECKS = {
                      "protocol states a session passes through (DTLS handshake in progress, before SCTP start, COOKIE-WAIT/ECHOED, "
                      "established idle / with data outstanding on the peer's or on the victim's own side - reliable or partially reliable - "
                      "media flowing) and then sampled with seeded field values: the victim's DTLS "
-                     "receive loop and every media task stay alive, handling one forged datagram costs < 1e6 + 2000*len executed lines, "
+                     "receive loop and every media task stay alive, handling one forged datagram costs < 1e6 + 2000*len executed lines and allocates < 8 MB + 4000*len bytes at peak, "
                      "and after void datagrams a fresh data-channel round trip and continued frame delivery succeed." ),
 }
 
